@@ -23,7 +23,7 @@ LEVEL = "exploration"
 BATCH = 1
 TIMEOUT = 600
 REQUIRED_OBS = ["renorm_calls_checked", "ratios_checked", "identity_checked", "electron_checked", "backend_dense", "backend_odeint", "tag_grain_species",
-                "tag_ice_species", "tag_deuterated", "opt0_references", "opt1_references"]
+                "tag_ice_species", "tag_deuterated", "opt0_references", "opt1_references", "second_renorm_calls_checked"]
 RULE = ("balanced-by-construction networks (multi-element molecules, D isotopologues, ions, electrons, ice species, optionally grain species "
         "GRAIN0/GRAIN-/GRAIN+) completed with the atomic species of every element; 8 random positive abundance vectors per case (6 "
         "decades inside a vector, overall scale over 30 decades), reference ratios from element totals (opt 0) and from another species "
@@ -253,6 +253,17 @@ def run_case(case, ctx):
                 if bad:
                     viol.append(violation("not_identity", f"{be}: ratios already matched but slot {bad[0][0]} changed {bad[0][1]!r} -> {bad[0][2]!r}"))
                 continue
+            # second Renorm call against the same stored reference (another abundance vector)
+            if "elem2" in rn and rn.get("ret2") == 0 and all(math.isfinite(v) for v in rn["ab2"]):
+                obs["second_renorm_calls_checked"] += 1
+                y2 = [y[i] * (1.0 + 0.37 * ((i * 7) % 5)) for i in range(n)]
+                tol2, _ = noise_floor(y2, want)
+                if tol2 is not None and max(tol2) < 1e-3:
+                    for ei, (got, exp) in enumerate(zip([v / rn["hnuclei2"] for v in rn["elem2"]], want)):
+                        if not close(got, exp, None, rel=tol2[ei]):
+                            viol.append(violation("ratio_not_restored_on_second_call", f"{be}: element {elem_names[ei]}: ratio {got!r} after a second Renorm with the "
+                                                  f"same stored reference, reference {exp!r}", element=elem_names[ei]))
+                            break
             ratios = [v / rn["hnuclei"] for v in rn["elem"]]
             for ei, (got, exp) in enumerate(zip(ratios, want)):
                 obs["ratios_checked"] += 1
